@@ -967,6 +967,15 @@ def m_chain(I, ctx, args, kwargs, node):
     return out
 
 
+def object_init_marker(*a):
+    raise RuntimeError('marker')
+
+
+@model(object_init_marker)
+def m_object_init(I, ctx, args, kwargs, node):
+    return None
+
+
 def chain_from_iterable_marker(*a):
     raise RuntimeError('marker')
 
